@@ -24,7 +24,10 @@ RULE = ('sampled (Hypothesis-decoded) workbooks of 1-4 sheets (names plain, '
         'columns with gaps of 1, 99, 100, 101 and 250 blanks and rectangles '
         'of more than 256 cells, formulas through defined names bound to '
         'cells and to ranges, cross-sheet chains whose inner references are '
-        'unqualified, references to empty cells; enumerated: col2num/num2col '
+        'unqualified, references to empty cells and to cells of other kinds '
+        '(booleans, zeros, integer-valued floats, numeric text, values '
+        'produced by formulas), where the KIND of the value read is part of '
+        'the comparison; enumerated: col2num/num2col '
         'for all 16384 columns, resolve_ranges for a table of rectangles, whole-'
         'row references (n:n, $n:$m, qualified or not) over rows with values '
         'in the first and in the last columns (XFD, XFE, ZZY, ZZZ).  '
@@ -148,6 +151,16 @@ def _fold(cells, rect):
     return s, n, na
 
 
+KINDS = [
+    [True, ['B', True]], [False, ['B', False]], [0, ['N', 0.0]],
+    [-0.0, ['N', 0.0]], [2.0, ['N', 2.0]], [1, ['N', 1.0]],
+    ['12', ['T', '12']], ['TRUE', ['T', 'TRUE']], ['1e3', ['T', '1e3']],
+    [u'\xe9\xdf', ['T', u'\xe9\xdf']],
+    ['=1=1', ['B', True]], ['=1=2', ['B', False]], ['=3*4', ['N', 12.0]],
+    ['="a"&"b"', ['T', 'ab']], ['=0*5', ['N', 0.0]], ['=1&2', ['T', '12']],
+]
+
+
 def _dollar(d, a1):
     cc, rr = R.split_a1(a1)
     k = d.pick(4)
@@ -166,7 +179,16 @@ def _build(d):
     sheets = []
     for i, n in enumerate(names):
         cells, cg, rg = _sheet_cells(d, i)
-        sheets.append({'name': n, 'cells': cells, 'cg': cg, 'rg': rg})
+        # other KINDS of cell content, far away from every rectangle (row
+        # 900+): booleans, zeros, integer-valued floats, numeric text, text
+        # spelling a boolean, values produced by formulas.  Only single
+        # references aim at them: [address, content, expected value]
+        kinds = []
+        for j in range(d.pick(4)):
+            kinds.append(['%s%d' % (col(d.int(1, 30)), 900 + 7 * j + i)] +
+                         d.choice(KINDS))
+        sheets.append({'name': n, 'cells': cells, 'cg': cg, 'rg': rg,
+                       'kinds': kinds})
     path = 'xlsx' if d.pick(2) else 'dict'
     wbnames = []
     if path == 'xlsx' and d.pick(2):
@@ -198,9 +220,13 @@ def _build(d):
             same = tsh is sh
             if k < 3:
                 # single reference, some spelling
+                kind_cell = False
                 if d.pick(6) == 0:
                     a = 'ZX299'     # an empty cell
                     want = ['Z']
+                elif tsh['kinds'] and d.pick(3) == 0:
+                    a, _, want = d.choice(tsh['kinds'])
+                    kind_cell = True
                 else:
                     a = d.choice(sorted(tsh['cells']))
                     v = tsh['cells'][a]
@@ -220,6 +246,8 @@ def _build(d):
                     feats.append('other-sheet')
                 if want == ['Z']:
                     feats.append('empty-cell')
+                if kind_cell:
+                    feats.append('kind')
                 probes.append({'sheet': sh['name'], 'f': '=' + text,
                                'want': want, 'feats': feats})
             elif k < 7:
@@ -354,7 +382,8 @@ def _build(d):
                     'helpers': [[osh['name'], helper, inner]],
                     'feats': ['chain']})
     return {'k': 'wb', 'path': path, 'names': wbnames,
-            'sheets': [{'name': s['name'], 'cells': s['cells']}
+            'sheets': [{'name': s['name'], 'cells': s['cells'],
+                        'kinds': s['kinds']}
                        for s in sheets], 'probes': probes}
 
 
@@ -401,8 +430,10 @@ def _whole_rows():
                 ('Sheet1', '=MAX(%s!11:$11)' % dq, 32.0),
             ]
             yield {'k': 'wb', 'path': path, 'names': [],
-                   'sheets': [{'name': 'Sheet1', 'cells': {'A1': 5}},
-                              {'name': dname, 'cells': dict(data)}],
+                   'sheets': [{'name': 'Sheet1', 'cells': {'A1': 5},
+                               'kinds': []},
+                              {'name': dname, 'cells': dict(data),
+                               'kinds': []}],
                    'probes': [{'sheet': sh, 'f': f, 'want': ['N', w],
                                'feats': ['range', 'whole-row', 'has-blanks',
                                          '>256-cells'] + (
@@ -476,10 +507,16 @@ def _load(case):
                                       for n in case['names']]}
         per = {s['name']: {} for s in sheets}
         for s in sheets:
-            for a, v in s['cells'].items():
-                per[s['name']][a] = ({'kind': 'inlineStr', 'v': v}
-                                     if isinstance(v, str)
-                                     else {'kind': 'n', 'v': v})
+            for a, v in list(s['cells'].items()) + [
+                    (k[0], k[1]) for k in s.get('kinds', [])]:
+                if isinstance(v, str) and v.startswith('='):
+                    per[s['name']][a] = {'kind': 'f', 'f': v[1:]}
+                elif isinstance(v, bool):
+                    per[s['name']][a] = {'kind': 'b', 'v': v}
+                else:
+                    per[s['name']][a] = ({'kind': 'inlineStr', 'v': v}
+                                         if isinstance(v, str)
+                                         else {'kind': 'n', 'v': v})
         for i, p in enumerate(probes):
             a = 'ZZ%d' % (i + 1)
             per[p['sheet']][a] = {'kind': 'f', 'f': p['f'][1:]}
@@ -501,6 +538,8 @@ def _load(case):
         d = {}
         for s in sheets:
             for a, v in s['cells'].items():
+                d[s['name'] + '!' + a] = v
+            for a, v, _ in s.get('kinds', []):
                 d[s['name'] + '!' + a] = v
         for i, p in enumerate(probes):
             a = p['sheet'] + '!ZZ%d' % (i + 1)
@@ -531,12 +570,13 @@ def _wb(case, res):
         obs = lib.evaluate(model, a, ev)
         feats = p['feats']
         if set(feats) & {'dollar', 'other-sheet', 'quoted-sheet', 'name',
+                         'kind',
                          'chain', 'mixed', 'gap>=100', 'has-blanks', '>256-cells',
                          'qualified'}:
             nt = True
         if not close(obs, want, rel=1e-12):
             key = [f for f in ('name-range', 'name-cell', 'chain', 'mixed',
-                               'whole-row', '>256-cells', 'gap>=100', 'dollar',
+                               'kind', 'whole-row', '>256-cells', 'gap>=100', 'dollar',
                                'unqualified-on-nondefault-sheet',
                                'quoted-sheet', 'other-sheet', 'empty-cell')
                    if f in feats]
